@@ -42,11 +42,25 @@ const (
 )
 
 type c16Env struct {
-	c       *Ctx
-	Do      *ssa.Function
-	orig    *ssa.Parameter
-	fns     []*ssa.Function
+	c    *Ctx
+	Do   *ssa.Function
+	orig *ssa.Parameter
+	fns  []*ssa.Function
+	// SV: Client.Do with its unexported in-package helpers inlined (what Do itself executes).
+	// BV: SV plus the fetch callbacks handed to Cache.Set, expanded at those calls
+	// (what runs on behalf of this request, credentials included).
+	SV, BV  *c14View
 	callers map[*ssa.Function][]ssa.CallInstruction
+}
+
+func c16Unexported(g *ssa.Function) bool {
+	if fnPkgPath(g) != pkgPath(c16Pkg) {
+		return false
+	}
+	if g.Parent() != nil {
+		return true
+	}
+	return g.Object() == nil || !g.Object().Exported()
 }
 
 func runC16(c *Ctx) {
@@ -66,6 +80,23 @@ func runC16(c *Ctx) {
 			}
 		}
 	}
+	e.SV = c14NewView(e.Do, 4, c16Unexported)
+	e.BV = c14NewViewV(e.Do, 7, c16Unexported, func(call *ssa.Call) *ssa.Function {
+		if CalleeName(call) != c16Cache+"Set" {
+			return nil
+		}
+		fn, recv := e.fetchTarget(call)
+		_ = recv
+		return fn
+	})
+	// receivers of method values used as fetch callbacks
+	for _, call := range e.SV.CallsTo(c16Cache + "Set") {
+		if cc, ok := call.(*ssa.Call); ok {
+			if fn, recv := e.fetchTarget(cc); fn != nil && recv != nil && len(fn.Params) > 0 {
+				e.BV.bind[fn.Params[0]] = append(e.BV.bind[fn.Params[0]], recv)
+			}
+		}
+	}
 	c.NotArmed("C16.R3.only-first-fetcher-stores", "storing the same fetched token again from a coalesced waiter is idempotent; not a necessary condition of the property")
 	c.NotArmed("C16.R2.service-parameter", "the `service` challenge parameter is not a secret-bearing destination; only the realm (where credentials travel) is traced")
 	c16R1(e)
@@ -75,82 +106,22 @@ func runC16(c *Ctx) {
 	c16R5(e)
 }
 
-// ---------- backward tracer ----------
-
-// origins resolves v backwards through phis/cells, captured variables of
-// closures and parameters of unexported helpers (via all their static callers
-// in the package) to the values it may denote inside Client.Do (or constants /
-// globals).  why != "" means the trace left the confirmed shapes.
-func (e *c16Env) origins(v ssa.Value, depth int) (out []ssa.Value, why string) {
-	if depth > 8 {
-		return nil, "trace too deep"
+// fetchTarget resolves the fetch argument of a Cache.Set call to the function it runs.
+func (e *c16Env) fetchTarget(call *ssa.Call) (*ssa.Function, ssa.Value) {
+	args := call.Call.Args
+	if len(args) == 0 {
+		return nil, nil
 	}
-	for _, r := range Roots(v) {
-		switch u := r.(type) {
-		case *ssa.Const, *ssa.Global:
-			out = append(out, r)
-			continue
-		case *ssa.Parameter:
-			f := u.Parent()
-			if f == e.Do {
-				out = append(out, r)
-				continue
-			}
-			idx := -1
-			for i, p := range f.Params {
-				if p == u {
-					idx = i
-				}
-			}
-			if f.Parent() != nil {
-				return nil, "parameter " + u.Name() + " of function literal " + FnName(f) + " (supplied by whoever calls the closure)"
-			}
-			if f.Object() != nil && f.Object().Exported() {
-				return nil, "parameter " + u.Name() + " of exported " + FnName(f) + " (callers outside the package choose it)"
-			}
-			cs := e.callers[f]
-			if len(cs) == 0 || idx < 0 {
-				return nil, "parameter " + u.Name() + " of " + FnName(f) + " which has no static caller in the package"
-			}
-			for _, call := range cs {
-				args := call.Common().Args
-				if idx >= len(args) {
-					return nil, "argument mismatch at a call of " + FnName(f)
-				}
-				o, w := e.origins(args[idx], depth+1)
-				if w != "" {
-					return nil, w
-				}
-				out = append(out, o...)
-			}
-			continue
-		case *ssa.UnOp:
-			if fv, ok := u.X.(*ssa.FreeVar); ok && u.Op == token.MUL {
-				cell := c14FreeVarAlloc(fv)
-				if cell == nil {
-					return nil, "captured variable " + fv.Name() + " is not bound to one local variable"
-				}
-				sts := c14CellStores(cell)
-				if len(sts) == 0 {
-					return nil, "captured variable " + fv.Name() + " is never assigned"
-				}
-				for _, s := range sts {
-					o, w := e.origins(s.Val, depth+1)
-					if w != "" {
-						return nil, w
-					}
-					out = append(out, o...)
-				}
-				continue
-			}
-		}
-		if in, ok := r.(ssa.Instruction); ok && in.Parent() == e.Do {
-			out = append(out, r)
-			continue
-		}
-		return nil, "value computed in " + FnName(valueParent(r)) + ": " + describe(r)
+	arg := args[len(args)-1]
+	cands := []ssa.Value{arg}
+	if e.SV != nil {
+		cands = e.SV.Leaves(arg)
 	}
-	return out, ""
+	if len(cands) != 1 {
+		return nil, nil
+	}
+	fn, recv, _ := c14FuncTarget(cands[0])
+	return fn, recv
 }
 
 func valueParent(v ssa.Value) *ssa.Function {
@@ -160,49 +131,45 @@ func valueParent(v ssa.Value) *ssa.Function {
 	return v.Parent()
 }
 
-// isHost: v is the load of originalReq.Host in Do.
-func (e *c16Env) isHost(v ssa.Value) bool {
-	u, ok := v.(*ssa.UnOp)
+// isOrig: every leaf of v is the originalReq parameter of Do.
+func (e *c16Env) isOrig(v ssa.Value, vw *c14View) bool {
+	ls := vw.Leaves(v)
+	for _, l := range ls {
+		if l != ssa.Value(e.orig) {
+			return false
+		}
+	}
+	return len(ls) > 0
+}
+
+// isHostLeaf: l is a load of <originalReq>.Host.
+func (e *c16Env) isHostLeaf(l ssa.Value) bool {
+	u, ok := l.(*ssa.UnOp)
 	if !ok || u.Op != token.MUL {
 		return false
 	}
 	fa, ok := u.X.(*ssa.FieldAddr)
-	return ok && fa.X == ssa.Value(e.orig) && fieldName(fa.X.Type(), fa.Field) == "net/http.Request.Host"
+	return ok && fieldName(fa.X.Type(), fa.Field) == "net/http.Request.Host" && e.isOrig(fa.X, e.BV)
 }
 
-// hostOnly: v traces to exactly the load(s) of originalReq.Host.
+// hostOnly: v denotes exactly the value loaded from originalReq.Host.
 func (e *c16Env) hostOnly(v ssa.Value) (bool, string) {
-	o, why := e.origins(v, 0)
-	if why != "" {
-		return false, why
-	}
-	if len(o) == 0 {
+	ls := e.BV.Leaves(v)
+	if len(ls) == 0 {
 		return false, "no origin"
 	}
-	for _, x := range o {
-		if !e.isHost(x) {
-			return false, "it can be " + describe(x) + ", which is not originalReq.Host"
+	for _, x := range ls {
+		if !e.isHostLeaf(x) {
+			return false, "it can be " + describe(x) + " (in " + FnName(valueParent(x)) + "), which is not originalReq.Host"
 		}
 	}
 	return true, ""
 }
 
-// isCloneOfOrig: v is originalReq or originalReq.Clone(...).
-func (e *c16Env) isReqOrClone(v ssa.Value, allowOrig bool) bool {
-	rs := Roots(v)
-	if len(rs) == 0 {
-		return false
-	}
-	for _, r := range rs {
-		if r == ssa.Value(e.orig) && allowOrig {
-			continue
-		}
-		call, ok := r.(*ssa.Call)
-		if !ok || CalleeName(call) != c16ReqClone || call.Call.Args[0] != ssa.Value(e.orig) {
-			return false
-		}
-	}
-	return true
+// isCloneLeaf: l is <originalReq>.Clone(...).
+func (e *c16Env) isCloneLeaf(l ssa.Value, vw *c14View) bool {
+	call, ok := l.(*ssa.Call)
+	return ok && CalleeName(call) == c16ReqClone && e.isOrig(call.Call.Args[0], vw)
 }
 
 func c16SchemeConsts(c *Ctx) (basic, bearer int64, ok bool) {
@@ -221,26 +188,64 @@ func c16CacheCalls(fn *ssa.Function) []ssa.CallInstruction {
 	return Calls(fn, func(n string) bool { return strings.HasPrefix(n, c16Cache) })
 }
 
+// constOf: every leaf of v is the same integer constant.
+func c16ConstOf(vw *c14View, v ssa.Value) (int64, bool) {
+	ls := vw.Leaves(v)
+	if len(ls) == 0 {
+		return 0, false
+	}
+	var k int64
+	for i, l := range ls {
+		n, ok := constInt(l)
+		if !ok || (i > 0 && n != k) {
+			return 0, false
+		}
+		k = n
+	}
+	return k, true
+}
+
+// clientFns: the functions of package auth that use a Cache (everything but
+// the methods of types implementing the Cache interface, whose forwarding is
+// checked by R3).
+func (e *c16Env) clientFns() []*ssa.Function {
+	iface := e.c.P.Named(c16Pkg, "Cache")
+	var out []*ssa.Function
+	for _, f := range e.fns {
+		root := f
+		for root.Parent() != nil {
+			root = root.Parent()
+		}
+		if iface != nil && root.Signature.Recv() != nil {
+			if it, ok := iface.Underlying().(*types.Interface); ok && (types.Implements(root.Signature.Recv().Type(), it) || types.Implements(types.NewPointer(root.Signature.Recv().Type()), it)) {
+				continue
+			}
+		}
+		out = append(out, f)
+	}
+	return out
+}
+
 // ---------- R1 ----------
 
 func c16R1(e *c16Env) {
 	const R = "C16.R1.one-host-value"
 	c := e.c
-	c.Expect(R, 23)
+	c.Expect(R, 9)
 	D := e.Do
 	dn := FnName(D)
-	// (a) registry argument of cache calls and scope lookups
+	// (a) registry argument of cache calls and scope lookups, in Do and in whatever it runs
 	seen := map[string]int{}
-	n := 0
-	for _, f := range e.clientFns() {
+	kinds := map[string]bool{}
+	for _, f := range e.BV.Funcs() {
 		if f.Object() != nil && f.Object().Exported() && f != D {
-			continue // exported scope helpers (GetAllScopesForHost itself, …) are API, not the auth flow
+			continue
 		}
 		for _, call := range Calls(f, func(n string) bool { return strings.HasPrefix(n, c16Cache) || n == c16AllScopes }) {
 			name := CalleeName(call)
+			kinds[name] = true
 			k := FnName(f) + "|" + name
 			seen[k]++
-			n++
 			args := call.Common().Args
 			ok, why := len(args) >= 2, "no registry argument"
 			if ok {
@@ -251,8 +256,19 @@ func c16R1(e *c16Env) {
 					"the registry argument is not the host of the request being authenticated ("+why+"): a token or scheme cached for one registry is looked up / stored for another"))
 		}
 	}
-	if n == 0 {
-		c.LostAnchor(R, dn+": calls of Cache.GetScheme/GetToken/Set")
+	for _, m := range []string{"GetScheme", "GetToken", "Set"} {
+		if !kinds[c16Cache+m] {
+			c.LostAnchor(R, dn+": a call of Cache."+m+" on behalf of the request")
+		}
+	}
+	// cache users outside Do's extent are not part of the confirmed flow
+	for _, f := range e.clientFns() {
+		if e.BV.Has(f) || (f.Object() != nil && f.Object().Exported()) {
+			continue
+		}
+		if calls := c16CacheCalls(f); len(calls) > 0 {
+			c.Violation(R, FnName(f)+"|cache-use-outside-Do", calls[0].Pos(), "a Cache is consulted by a function that Client.Do does not run: the registry it uses is not tied to the request's host")
+		}
 	}
 	// (b) the hostport handed to the Credential callback, anywhere in the package
 	nb := 0
@@ -260,7 +276,7 @@ func c16R1(e *c16Env) {
 		for i, call := range CallsTo(f, c16CredField) {
 			nb++
 			args := call.Common().Args
-			ok, why := len(args) == 2, "unexpected callback arity"
+			ok, why := len(args) == 2 && e.BV.Has(f), "the callback is called from a function that is not run on behalf of Client.Do"
 			if ok {
 				ok, why = e.hostOnly(args[1])
 			}
@@ -272,16 +288,28 @@ func c16R1(e *c16Env) {
 	if nb == 0 {
 		c.LostAnchor(R, "call of the Client.Credential callback in package auth")
 	}
-	// (c) requests sent are originalReq or its clones
-	sends := c16SendCalls(D)
-	for i, s := range sends {
-		args := s.Common().Args
-		ok := len(args) >= 2 && e.isReqOrClone(args[len(args)-1], true)
-		c.Check(R, fmt.Sprintf("%s|send#%d|request-is-clone-of-original", dn, i+1), s.Pos(), ok,
-			ifelse(ok, "the request sent is originalReq or originalReq.Clone(ctx)", "Do sends a request that is neither originalReq nor a clone of it: the Authorization header may travel to another host"))
+	// (c) requests Do sends are originalReq or its clones
+	ns := 0
+	for _, f := range e.SV.Funcs() {
+		for i, s := range CallsTo(f, c16HTTPDo) {
+			ns++
+			args := s.Common().Args
+			ok := len(args) == 2
+			if ok {
+				ls := e.SV.Leaves(args[1])
+				ok = len(ls) > 0
+				for _, l := range ls {
+					if l != ssa.Value(e.orig) && !e.isCloneLeaf(l, e.SV) {
+						ok = false
+					}
+				}
+			}
+			c.Check(R, fmt.Sprintf("%s|http.Client.Do#%d|request-is-clone-of-original", FnName(f), i+1), s.Pos(), ok,
+				ifelse(ok, "every request Client.Do sends is originalReq or originalReq.Clone(ctx)", "Do sends a request that is neither originalReq nor a clone of it: the Authorization header may travel to another host"))
+		}
 	}
-	if len(sends) == 0 {
-		c.LostAnchor(R, dn+": send calls")
+	if ns == 0 {
+		c.LostAnchor(R, dn+": http.Client.Do reached from Client.Do")
 	}
 	// (d) Authorization headers: on a clone, value = scheme prefix + token from a cache call of that scheme
 	basic, bearer, okK := c16SchemeConsts(c)
@@ -291,32 +319,44 @@ func c16R1(e *c16Env) {
 	}
 	nh := 0
 	for _, f := range e.fns {
+		idx := 0
 		for _, call := range CallsTo(f, c16HdrSet) {
 			args := call.Common().Args
 			if k, ok := constString(args[1]); !ok || !strings.EqualFold(k, "Authorization") {
 				continue
 			}
 			nh++
-			key := fmt.Sprintf("%s|Authorization#%d", FnName(f), nh)
-			// receiver: load of X.Header with X a clone (traced through helper parameters)
+			idx++
+			key := fmt.Sprintf("%s|Authorization#%d", FnName(f), idx)
+			if !e.SV.Has(f) {
+				c.Violation(R, key+"|outside-Do", call.Pos(), "an Authorization header is set by a function Client.Do does not run: not covered by the confirmed per-host flow")
+				continue
+			}
 			okClone := false
 			if ld, ok := args[0].(*ssa.UnOp); ok && ld.Op == token.MUL {
 				if fa, ok := ld.X.(*ssa.FieldAddr); ok && fieldName(fa.X.Type(), fa.Field) == "net/http.Request.Header" {
-					if o, why := e.origins(fa.X, 0); why == "" && len(o) > 0 {
-						okClone = true
-						for _, x := range o {
-							if !e.isReqOrClone(x, false) {
-								okClone = false
-							}
+					ls := e.SV.Leaves(fa.X)
+					okClone = len(ls) > 0
+					for _, l := range ls {
+						if !e.isCloneLeaf(l, e.SV) {
+							okClone = false
 						}
 					}
 				}
 			}
 			c.Check(R, key+"|on-clone", call.Pos(), okClone,
 				ifelse(okClone, "the header is set on originalReq.Clone(ctx)", "the Authorization header is set on a request that is not a fresh clone of originalReq (the caller's request object, possibly reused for another host, keeps the token)"))
-			// value
-			okVal, detail := false, "the header value is not <scheme prefix> + <token returned by Cache.GetToken/Set>"
-			if bo, ok := args[2].(*ssa.BinOp); ok && bo.Op == token.ADD {
+			okVal, detail := true, ""
+			vals := e.SV.Leaves(args[2])
+			if len(vals) == 0 {
+				okVal, detail = false, "no value"
+			}
+			for _, hv := range vals {
+				bo, ok := hv.(*ssa.BinOp)
+				if !ok || bo.Op != token.ADD {
+					okVal, detail = false, "the header value "+describe(hv)+" is not <scheme prefix> + <token returned by Cache.GetToken/Set>"
+					continue
+				}
 				prefix, okP := constString(bo.X)
 				var want int64 = -1
 				switch prefix {
@@ -325,22 +365,29 @@ func c16R1(e *c16Env) {
 				case "Bearer ":
 					want = bearer
 				}
-				rs := c16TokenSources(bo.Y, 0)
-				okVal = okP && want >= 0 && len(rs) > 0
-				for _, r := range rs {
+				if !okP || want < 0 {
+					okVal, detail = false, "the header value does not start with a constant scheme prefix"
+					continue
+				}
+				toks := e.SV.Leaves(bo.Y)
+				if len(toks) == 0 {
+					okVal, detail = false, "no token"
+				}
+				for _, r := range toks {
+					if k, isK := r.(*ssa.Const); isK && k.Value != nil && k.Value.Kind() == constant.String && constant.StringVal(k.Value) == "" {
+						continue // the "" a helper returns next to an error
+					}
 					ex, isEx := r.(*ssa.Extract)
-					if !isEx || ex.Index != 0 {
-						okVal = false
+					var cc *ssa.Call
+					if isEx && ex.Index == 0 {
+						cc, _ = ex.Tuple.(*ssa.Call)
+					}
+					if cc == nil || (CalleeName(cc) != c16Cache+"GetToken" && CalleeName(cc) != c16Cache+"Set") {
+						okVal, detail = false, "the token "+describe(r)+" is not the result of Cache.GetToken/Set"
 						continue
 					}
-					cc, isCall := ex.Tuple.(*ssa.Call)
-					if !isCall || (CalleeName(cc) != c16Cache+"GetToken" && CalleeName(cc) != c16Cache+"Set") {
-						okVal = false
-						continue
-					}
-					if sc, isK := constInt(cc.Call.Args[2]); !isK || sc != want {
-						okVal = false
-						detail = "the token comes from a cache call of another scheme than the header prefix " + prefix
+					if sc, isK := c16ConstOf(e.SV, cc.Call.Args[2]); !isK || sc != want {
+						okVal, detail = false, "the token comes from a cache call of another scheme than the header prefix "+prefix
 					}
 				}
 			}
@@ -353,74 +400,25 @@ func c16R1(e *c16Env) {
 	}
 }
 
-// c16TokenSources resolves a token value to the values that produce it,
-// looking through results of in-package helpers (two levels).
-func c16TokenSources(v ssa.Value, depth int) []ssa.Value {
-	var out []ssa.Value
-	for _, r := range Roots(v) {
-		if ex, ok := r.(*ssa.Extract); ok && depth < 2 {
-			if call, ok := ex.Tuple.(*ssa.Call); ok {
-				if g := StaticCallee(call); g != nil && fnPkgPath(g) == pkgPath(c16Pkg) && len(g.Blocks) > 0 {
-					for _, a := range RetAtoms(g, ex.Index) {
-						if _, isZero := a.Val.(zeroMarker); isZero {
-							continue
-						}
-						if k, isK := a.Val.(*ssa.Const); isK && k.Value != nil && k.Value.Kind() == constant.String && constant.StringVal(k.Value) == "" {
-							continue // the "" returned next to an error
-						}
-						out = append(out, c16TokenSources(a.Val, depth+1)...)
-					}
-					continue
-				}
-			}
-		}
-		out = append(out, r)
-	}
-	return out
-}
-
-// c16SendCalls: calls in fn whose static callee (depth<=2) performs http.Client.Do.
-func c16SendCalls(fn *ssa.Function) []ssa.CallInstruction {
-	var out []ssa.CallInstruction
-	for _, call := range Calls(fn, func(string) bool { return true }) {
-		if CalleeName(call) == c16HTTPDo {
-			out = append(out, call)
-			continue
-		}
-		g := StaticCallee(call)
-		if g == nil || !inModule(g) || g.Parent() != nil {
-			continue
-		}
-		// a *sender* takes the request and forwards it: (…, *http.Request) -> (*http.Response, error)
-		sig := g.Signature
-		if sig.Results().Len() != 2 || sig.Params().Len() == 0 {
-			continue
-		}
-		if c14NamedOf(sig.Results().At(0).Type()) != "net/http.Response" || c14NamedOf(sig.Params().At(sig.Params().Len()-1).Type()) != "net/http.Request" {
-			continue
-		}
-		if reachesCall(g, 2, func(n string, _ ssa.CallInstruction) bool { return n == c16HTTPDo }) {
-			out = append(out, call)
-		}
-	}
-	return out
-}
-
 // ---------- R2 ----------
 
 func c16R2(e *c16Env) {
 	const R = "C16.R2.credential-access"
 	c := e.c
-	c.Expect(R, 7)
-	// who-may-call chain, upwards from the callback call
-	table := map[string]string{
-		"(*~/registry/remote/auth.Client).credential|" + c16CredField:                                               "the one place the user's Credential callback is invoked",
-		"(*~/registry/remote/auth.Client).fetchBasicAuth|(*~/registry/remote/auth.Client).credential":               "Basic challenge: credential of the challenged host",
-		"(*~/registry/remote/auth.Client).fetchBearerToken|(*~/registry/remote/auth.Client).credential":             "Bearer challenge: credential of the challenged host",
-		"(*~/registry/remote/auth.Client).Do$1|(*~/registry/remote/auth.Client).fetchBasicAuth":                     "fetch closure given to Cache.Set (Basic)",
-		"(*~/registry/remote/auth.Client).Do$2|(*~/registry/remote/auth.Client).fetchBearerToken":                   "fetch closure given to Cache.Set (Bearer)",
-		"(*~/registry/remote/auth.Client).fetchBearerToken|(*~/registry/remote/auth.Client).fetchDistributionToken": "distribution token flow (username/password as Basic auth to the realm)",
-		"(*~/registry/remote/auth.Client).fetchBearerToken|(*~/registry/remote/auth.Client).fetchOAuth2Token":       "OAuth2 token flow (credential in the form posted to the realm)",
+	c.Expect(R, 4)
+	// the functions that run only inside a fetch callback of Cache.Set
+	sensitiveOK := func(f *ssa.Function) bool { return e.BV.Has(f) && !e.SV.Has(f) }
+	fetchers := map[*ssa.Function]bool{}
+	for _, call := range e.SV.CallsTo(c16Cache + "Set") {
+		if cc, ok := call.(*ssa.Call); ok {
+			if fn, _ := e.fetchTarget(cc); fn != nil {
+				fetchers[fn] = true
+			}
+		}
+	}
+	if len(fetchers) == 0 {
+		c.LostAnchor(R, "fetch callbacks handed to Cache.Set by Client.Do")
+		return
 	}
 	sensitive := map[*ssa.Function]bool{}
 	var work []*ssa.Function
@@ -428,8 +426,6 @@ func c16R2(e *c16Env) {
 		if len(CallsTo(f, c16CredField)) > 0 {
 			sensitive[f] = true
 			work = append(work, f)
-			c.Exists(R, FnName(f)+"|"+c16CredField, f.Pos(), table[FnName(f)+"|"+c16CredField] != "",
-				ifelse(table[FnName(f)+"|"+c16CredField] != "", table[FnName(f)+"|"+c16CredField], "unclassified caller of the Credential callback"))
 		}
 		// any other use of the Credential function value (copied, passed along)
 		for _, fa := range c14FieldAddrs(f, "~/registry/remote/auth.Client", "Credential") {
@@ -466,53 +462,93 @@ func c16R2(e *c16Env) {
 	for len(work) > 0 {
 		g := work[len(work)-1]
 		work = work[:len(work)-1]
-		if g.Parent() != nil {
-			// a function literal: must be handed to Cache.Set in Do as the fetch argument, and nowhere else
-			ok := g.Parent() == e.Do
-			AllInstrs(g.Parent(), func(in ssa.Instruction) {
-				mc, isMC := in.(*ssa.MakeClosure)
-				if !isMC || mc.Fn != g {
-					return
-				}
-				for _, r := range *mc.Referrers() {
-					call, isCall := r.(*ssa.Call)
-					if _, dbg := r.(*ssa.DebugRef); dbg {
-						continue
+		gn := FnName(g)
+		if fetchers[g] {
+			// the top of the chain: used only as the fetch argument of Cache.Set
+			ok := true
+			if g.Parent() != nil {
+				AllInstrs(g.Parent(), func(in ssa.Instruction) {
+					mc, isMC := in.(*ssa.MakeClosure)
+					if !isMC || mc.Fn != g {
+						return
 					}
-					if !isCall || CalleeName(call) != c16Cache+"Set" || call.Call.Args[len(call.Call.Args)-1] != ssa.Value(mc) {
-						ok = false
-					}
-				}
-			})
-			c.Check(R, FnName(g)+"|only-as-Cache.Set-fetch", g.Pos(), ok,
-				ifelse(ok, "the credential-reading closure is created in Do and used only as the fetch argument of Cache.Set", "a credential-reading function literal is used other than as the fetch argument of Cache.Set in Do"))
+					ok = ok && c16OnlyFetchArg(mc, map[ssa.Value]bool{})
+				})
+			}
+			c.Check(R, gn+"|only-as-Cache.Set-fetch", g.Pos(), ok && len(e.callers[g]) == 0,
+				ifelse(ok && len(e.callers[g]) == 0, "the credential-reading callback is used only as the fetch argument of Cache.Set", "a credential-reading callback is also called or passed elsewhere than as the fetch argument of Cache.Set"))
 			continue
 		}
-		if g == e.Do {
-			continue
+		okIn := sensitiveOK(g)
+		c.Check(R, gn+"|runs-only-inside-a-fetch", g.Pos(), okIn,
+			ifelse(okIn, "reached only through the fetch callbacks Client.Do hands to Cache.Set", "a function that obtains the registry's credential is run by Client.Do directly (or not by Client.Do at all): credentials are to be resolved only inside the coalesced token fetch for the challenged host"))
+		if g.Object() != nil && g.Object().Exported() {
+			c.Violation(R, gn+"|exported", g.Pos(), "an exported function reaches the Credential callback with a caller-chosen host")
 		}
 		cs := e.callers[g]
-		if len(cs) == 0 {
-			c.Violation(R, FnName(g)+"|no-caller", g.Pos(), "credential-reading helper without a static caller: it can only be reached dynamically, outside the inventory")
+		if len(cs) == 0 && g.Parent() == nil {
+			c.Violation(R, gn+"|no-caller", g.Pos(), "credential-reading helper without a static caller: it can only be reached dynamically, outside the inventory")
 		}
-		if g.Object() != nil && g.Object().Exported() {
-			c.Violation(R, FnName(g)+"|exported", g.Pos(), "an exported function reaches the Credential callback with a caller-chosen host")
+		if g.Parent() != nil && len(cs) == 0 {
+			c.Violation(R, gn+"|stray-closure", g.Pos(), "a credential-reading function literal that is not a fetch callback of Cache.Set")
 		}
 		for _, call := range cs {
-			k := FnName(call.Parent()) + "|" + FnName(g)
-			role, known := table[k]
-			c.Exists(R, k, call.Pos(), known, ifelse(known, role, "unclassified caller of a credential-reading function: who may obtain the registry's secrets is a frozen list (fetchBasicAuth/fetchBearerToken from the Cache.Set closures in Do)"))
-			if !sensitive[call.Parent()] {
-				sensitive[call.Parent()] = true
-				work = append(work, call.Parent())
+			p := call.Parent()
+			if !sensitive[p] {
+				sensitive[p] = true
+				work = append(work, p)
 			}
 		}
 	}
-	c16SecretFlows(e, table)
+	c16SecretFlows(e, sensitiveOK)
+}
+
+// c16OnlyFetchArg: the function value v is used only as the last argument of Cache.Set
+// (directly or through local variables).
+func c16OnlyFetchArg(v ssa.Value, seen map[ssa.Value]bool) bool {
+	if seen[v] {
+		return true
+	}
+	seen[v] = true
+	refs := v.Referrers()
+	if refs == nil {
+		return true
+	}
+	for _, r := range *refs {
+		switch u := r.(type) {
+		case *ssa.DebugRef:
+		case *ssa.Call:
+			args := u.Call.Args
+			if CalleeName(u) != c16Cache+"Set" || len(args) == 0 || args[len(args)-1] != v {
+				return false
+			}
+		case *ssa.Store:
+			a, ok := u.Addr.(*ssa.Alloc)
+			if !ok || u.Val != v {
+				return false
+			}
+			for _, lr := range *a.Referrers() {
+				if ld, isLd := lr.(*ssa.UnOp); isLd && ld.Op == token.MUL {
+					if !c16OnlyFetchArg(ld, seen) {
+						return false
+					}
+				}
+			}
+		case *ssa.Phi, *ssa.ChangeType:
+			if !c16OnlyFetchArg(u.(ssa.Value), seen) {
+				return false
+			}
+		case *ssa.Return:
+			// returned from a helper that builds the callback: its callers are checked through the view
+		default:
+			return false
+		}
+	}
+	return true
 }
 
 // c16SecretFlows follows Credential.{Username,Password,RefreshToken} forward.
-func c16SecretFlows(e *c16Env, chain map[string]string) {
+func c16SecretFlows(e *c16Env, sensitiveOK func(*ssa.Function) bool) {
 	const R = "C16.R2.secret-sinks"
 	c := e.c
 	c.Expect(R, 4)
@@ -678,8 +714,8 @@ func c16SecretFlows(e *c16Env, chain map[string]string) {
 		if s.call == nil {
 			// returned secret-derived value: allowed only as the (base64) Basic token out of a function of the confirmed chain
 			k := FnName(s.fn) + "|returns-secret-derived-value"
-			ok := strings.Contains(s.what, "(base64)") && chain["(*~/registry/remote/auth.Client).Do$1|"+FnName(s.fn)] != ""
-			put(k, s.fn.Pos(), ok, "a value derived from "+s.what+" is returned from "+FnName(s.fn)+": only the base64 Basic token may leave fetchBasicAuth")
+			ok := strings.Contains(s.what, "(base64)") && sensitiveOK(s.fn)
+			put(k, s.fn.Pos(), ok, "a value derived from "+s.what+" is returned from "+FnName(s.fn)+": only the base64 Basic token may leave a token fetcher")
 			continue
 		}
 		name := CalleeName(s.call)
@@ -708,20 +744,11 @@ func c16SecretFlows(e *c16Env, chain map[string]string) {
 // isRealm: v traces to params["realm"] of the challenge parsed from the
 // Www-Authenticate header of a response obtained by a send in Do.
 func (e *c16Env) isRealm(v ssa.Value) (bool, string) {
-	o, why := e.origins(v, 0)
-	if why != "" {
-		return false, why
-	}
-	if len(o) == 0 {
+	ls := e.BV.Leaves(v)
+	if len(ls) == 0 {
 		return false, "no origin"
 	}
-	sends := map[ssa.Value]bool{}
-	for _, s := range c16SendCalls(e.Do) {
-		if s.Value() != nil {
-			sends[s.Value()] = true
-		}
-	}
-	for _, x := range o {
+	for _, x := range ls {
 		lk, ok := x.(*ssa.Lookup)
 		if !ok {
 			return false, "it can be " + describe(x)
@@ -729,46 +756,109 @@ func (e *c16Env) isRealm(v ssa.Value) (bool, string) {
 		if k, okK := constString(lk.Index); !okK || k != "realm" {
 			return false, "the challenge parameter used is not \"realm\""
 		}
-		okSrc := false
-		for _, m := range Roots(lk.X) {
-			ex, isEx := m.(*ssa.Extract)
-			if !isEx {
-				continue
-			}
-			pc, isCall := ex.Tuple.(*ssa.Call)
-			if !isCall || len(pc.Call.Args) != 1 {
-				continue
-			}
-			for _, h := range Roots(pc.Call.Args[0]) {
-				hg, isGet := h.(*ssa.Call)
-				if !isGet || CalleeName(hg) != c16HdrGet {
-					continue
-				}
-				if k, okK := constString(hg.Call.Args[1]); !okK || !strings.EqualFold(k, "Www-Authenticate") {
-					continue
-				}
-				// header of resp.Header with resp from a send
-				if ld, isLd := hg.Call.Args[0].(*ssa.UnOp); isLd {
-					if fa, isFA := ld.X.(*ssa.FieldAddr); isFA && fieldName(fa.X.Type(), fa.Field) == "net/http.Response.Header" {
-						for _, rr := range Roots(fa.X) {
-							if rex, isRex := rr.(*ssa.Extract); isRex && sends[rex.Tuple] {
-								okSrc = true
-							}
-						}
-					}
-				}
-			}
-		}
-		if !okSrc {
+		if !e.fromChallenge(lk.X, 0) {
 			return false, "the challenge is not parsed from the Www-Authenticate header of the response to this request"
 		}
 	}
 	return true, ""
 }
 
+// fromChallenge: the map m is a result of a call one of whose arguments is
+// <response of a send in Do>.Header.Get("Www-Authenticate") — directly, or
+// through helpers that Do runs.
+func (e *c16Env) fromChallenge(m ssa.Value, depth int) bool {
+	if depth > 3 {
+		return false
+	}
+	rs := Roots(m)
+	if len(rs) == 0 {
+		return false
+	}
+	for _, r := range rs {
+		var call *ssa.Call
+		idx := 0
+		switch u := r.(type) {
+		case *ssa.Extract:
+			call, _ = u.Tuple.(*ssa.Call)
+			idx = u.Index
+		case *ssa.Call:
+			call = u
+		case *ssa.Parameter:
+			ok := len(e.BV.Leaves(u)) > 0
+			for _, l := range e.BV.Leaves(u) {
+				if l == ssa.Value(u) || !e.fromChallenge(l, depth+1) {
+					ok = false
+				}
+			}
+			if ok {
+				continue
+			}
+			return false
+		}
+		if call == nil {
+			return false
+		}
+		direct := false
+		for _, a := range call.Call.Args {
+			for _, h := range e.BV.Leaves(a) {
+				if e.isChallengeHeader(h) {
+					direct = true
+				}
+			}
+		}
+		if direct {
+			continue
+		}
+		g := StaticCallee(call)
+		if g == nil || !e.BV.Has(g) {
+			return false
+		}
+		for _, ret := range Returns(g) {
+			if idx >= len(ret.Results) || !e.fromChallenge(ret.Results[idx], depth+1) {
+				return false
+			}
+		}
+	}
+	return true
+}
+
+// isChallengeHeader: h = X.Header.Get("Www-Authenticate") with X the response of a request Do sent.
+func (e *c16Env) isChallengeHeader(h ssa.Value) bool {
+	hg, ok := h.(*ssa.Call)
+	if !ok || CalleeName(hg) != c16HdrGet {
+		return false
+	}
+	if k, okK := constString(hg.Call.Args[1]); !okK || !strings.EqualFold(k, "Www-Authenticate") {
+		return false
+	}
+	ld, ok := hg.Call.Args[0].(*ssa.UnOp)
+	if !ok {
+		return false
+	}
+	fa, ok := ld.X.(*ssa.FieldAddr)
+	if !ok || fieldName(fa.X.Type(), fa.Field) != "net/http.Response.Header" {
+		return false
+	}
+	ls := e.SV.Leaves(fa.X)
+	if len(ls) == 0 {
+		return false
+	}
+	for _, rr := range ls {
+		rex, ok := rr.(*ssa.Extract)
+		if !ok || rex.Index != 0 {
+			return false
+		}
+		sc, ok := rex.Tuple.(*ssa.Call)
+		if !ok || CalleeName(sc) != c16HTTPDo || !e.SV.Has(sc.Parent()) {
+			return false
+		}
+	}
+	return true
+}
+
 // requestGoesToRealm: req is the result of http.NewRequestWithContext(ctx, m, url, body) with url = realm.
 func (e *c16Env) requestGoesToRealm(req ssa.Value) (bool, string) {
-	rs := Roots(req)
+	rs := e.BV.Leaves(req)
 	if len(rs) == 0 {
 		return false, "unknown request"
 	}
@@ -779,7 +869,7 @@ func (e *c16Env) requestGoesToRealm(req ssa.Value) (bool, string) {
 		}
 		call, ok := ex.Tuple.(*ssa.Call)
 		if !ok || CalleeName(call) != "net/http.NewRequestWithContext" {
-			return false, "the request is not built by http.NewRequestWithContext in place"
+			return false, "the request is not built by http.NewRequestWithContext"
 		}
 		if ok, why := e.isRealm(call.Call.Args[2]); !ok {
 			return false, "its URL is not the challenge's realm (" + why + ")"
@@ -829,10 +919,51 @@ func (e *c16Env) formGoesToRealm(set ssa.CallInstruction) (bool, string) {
 
 // ---------- R3 ----------
 
+// c16Operands: the leaves v is built from, looking through string
+// concatenation, strings.Join of a literal list, method calls on a value
+// (scheme.String()) and conversions.
+func c16Operands(vw *c14View, v ssa.Value, out map[ssa.Value]bool, depth int) {
+	if depth > 8 {
+		return
+	}
+	for _, l := range vw.Leaves(v) {
+		switch u := l.(type) {
+		case *ssa.BinOp:
+			if u.Op == token.ADD {
+				c16Operands(vw, u.X, out, depth+1)
+				c16Operands(vw, u.Y, out, depth+1)
+				continue
+			}
+		case *ssa.Call:
+			for _, a := range u.Call.Args {
+				c16Operands(vw, a, out, depth+1)
+			}
+			if u.Call.IsInvoke() {
+				c16Operands(vw, u.Call.Value, out, depth+1)
+			}
+			continue
+		case *ssa.Slice:
+			if al, ok := u.X.(*ssa.Alloc); ok {
+				for _, r := range *al.Referrers() {
+					if ia, ok := r.(*ssa.IndexAddr); ok {
+						for _, r2 := range *ia.Referrers() {
+							if st, ok := r2.(*ssa.Store); ok {
+								c16Operands(vw, st.Val, out, depth+1)
+							}
+						}
+					}
+				}
+				continue
+			}
+		}
+		out[l] = true
+	}
+}
+
 func c16R3(e *c16Env) {
 	const R = "C16.R3.cache-keying"
 	c := e.c
-	c.Expect(R, 18)
+	c.Expect(R, 12)
 	if !c14HasField(c.P, c16Pkg, "concurrentCache", "cache") || !c14HasField(c.P, c16Pkg, "concurrentCache", "status") ||
 		!c14HasField(c.P, c16Pkg, "cacheEntry", "scheme") || !c14HasField(c.P, c16Pkg, "cacheEntry", "tokens") {
 		c.LostAnchor(R, "~/registry/remote/auth.concurrentCache.{cache,status} / cacheEntry.{scheme,tokens}")
@@ -859,47 +990,53 @@ func c16R3(e *c16Env) {
 		}
 		return fieldName(fa.X.Type(), fa.Field)
 	}
-	keyIs := func(call ssa.CallInstruction, p *ssa.Parameter) bool {
-		args := call.Common().Args
-		if len(args) < 2 || p == nil {
+	allIs := func(vw *c14View, v ssa.Value, p *ssa.Parameter) bool {
+		if p == nil {
 			return false
 		}
-		rs := Roots(args[1])
-		return len(rs) == 1 && rs[0] == ssa.Value(p)
+		ls := vw.Leaves(v)
+		for _, l := range ls {
+			if l != ssa.Value(p) {
+				return false
+			}
+		}
+		return len(ls) > 0
 	}
+	covered := map[ssa.Instruction]bool{}
+	nMethods := 0
 	for _, mname := range []string{"GetScheme", "GetToken", "Set"} {
 		f := c.P.Fn(c16Pkg, "concurrentCache."+mname)
 		if f == nil {
 			c.LostAnchor(R, tCC+"."+mname)
 			continue
 		}
+		nMethods++
 		fn := FnName(f)
-		reg, key := param(f, 1), param(f, 3)
-		scheme := param(f, 2)
+		vw := c14NewView(f, 4, c16Unexported)
+		reg, scheme, key := param(f, 1), param(f, 2), param(f, 3)
 		idx := map[string]int{}
-		for _, call := range Calls(f, isMapOp) {
+		for _, call := range vw.Calls(isMapOp) {
+			covered[call.(ssa.Instruction)] = true
 			op := strings.TrimPrefix(CalleeName(call), "(*sync.Map).")
+			args := call.Common().Args
 			switch mapField(call) {
 			case tCC + ".cache":
 				idx["cache"]++
-				ok := keyIs(call, reg)
+				ok := len(args) >= 2 && allIs(vw, args[1], reg)
 				c.Check(R, fmt.Sprintf("%s|cache.%s#%d|key-is-registry", fn, op, idx["cache"]), call.Pos(), ok,
 					ifelse(ok, "the per-registry map is keyed by the registry parameter", "the per-registry cache map is accessed with a key other than the registry parameter: tokens of one registry are returned for another"))
 			case tCE + ".tokens":
 				idx["tokens"]++
-				ok := keyIs(call, key)
+				ok := len(args) >= 2 && allIs(vw, args[1], key)
 				c.Check(R, fmt.Sprintf("%s|tokens.%s#%d|key-is-key", fn, op, idx["tokens"]), call.Pos(), ok,
 					ifelse(ok, "the token map is keyed by the key parameter", "the token map is accessed with a key other than the key parameter: a token fetched for one scope set is reused for another"))
 			case tCC + ".status":
 				idx["status"]++
-				ok := reg != nil && scheme != nil && key != nil
+				ok := reg != nil && scheme != nil && key != nil && len(args) >= 2
 				if ok {
-					k := call.Common().Args[1]
-					for _, p := range []*ssa.Parameter{reg, scheme, key} {
-						if !c14Derives(k, map[ssa.Value]bool{p: true}, 0) {
-							ok = false
-						}
-					}
+					ops := map[ssa.Value]bool{}
+					c16Operands(vw, args[1], ops, 0)
+					ok = ops[reg] && ops[scheme] && ops[key]
 				}
 				c.Check(R, fmt.Sprintf("%s|status.%s#%d|key-joins-registry-scheme-key", fn, op, idx["status"]), call.Pos(), ok,
 					ifelse(ok, "in-flight fetches are keyed by registry, scheme and key together", "the in-flight fetch table is not keyed by (registry, scheme, key): a waiter can be handed the token another registry / scope set is fetching"))
@@ -907,66 +1044,87 @@ func c16R3(e *c16Env) {
 				c.Undecided(R, fmt.Sprintf("%s|%s|unknown-map", fn, CalleeName(call)), call.Pos(), "sync.Map operation on an unrecognised map")
 			}
 		}
-		switch mname {
-		case "GetToken":
-			// a token is returned only after entry.scheme == scheme
-			var eq []Edge
-			for _, i := range Ifs(f) {
-				cond, t, fe := ifEdges(i)
-				bo, ok := cond.(*ssa.BinOp)
-				if !ok || (bo.Op != token.EQL && bo.Op != token.NEQ) {
-					continue
-				}
-				x, y := bo.X, bo.Y
-				if y != ssa.Value(scheme) {
-					x, y = y, x
-				}
-				if y != ssa.Value(scheme) || !c14IsLoadOfField(x, tCE, "scheme") {
-					continue
-				}
-				if bo.Op == token.EQL {
-					eq = append(eq, t)
-				} else {
-					eq = append(eq, fe)
+		// comparisons of a cached entry's scheme with the requested scheme
+		schemeTests := func() (eq, neq []Edge) {
+			for _, g := range vw.Funcs() {
+				for _, i := range Ifs(g) {
+					cond, t, fe := ifEdges(i)
+					bo, ok := cond.(*ssa.BinOp)
+					if !ok || (bo.Op != token.EQL && bo.Op != token.NEQ) {
+						continue
+					}
+					x, y := bo.X, bo.Y
+					if !allIs(vw, y, scheme) {
+						x, y = y, x
+					}
+					if !allIs(vw, y, scheme) || !vw.IsLoadOfField(x, tCE, "scheme") {
+						continue
+					}
+					if bo.Op == token.EQL {
+						eq, neq = append(eq, t), append(neq, fe)
+					} else {
+						eq, neq = append(eq, fe), append(neq, t)
+					}
 				}
 			}
+			return
+		}
+		switch mname {
+		case "GetToken":
+			eq, _ := schemeTests()
 			ok := len(eq) > 0
 			n := 0
-			for _, a := range RetAtoms(f, 1) {
-				if ErrNilStatus(a.Val, 0) == NonNil {
+			for _, ret := range Returns(f) {
+				if !vw.ReachableFromEntry(ret) || len(ret.Results) != 2 {
 					continue
 				}
-				n++
-				if !MustPass(a.Ret, newCut().Edges(eq...)) {
-					ok = false
+				mayNil := false
+				for _, l := range vw.Leaves(ret.Results[1]) {
+					if ErrNilStatus(l, 0) != NonNil {
+						mayNil = true
+					}
+				}
+				if !mayNil {
+					continue
+				}
+				// per phi edge: only the edges on which the error may be nil matter
+				for _, a := range RetAtoms(f, 1) {
+					if a.Ret != ret {
+						continue
+					}
+					st := NonNil
+					for _, l := range vw.Leaves(a.Val) {
+						if ErrNilStatus(l, 0) != NonNil {
+							st = MaybeNil
+						}
+					}
+					if _, isZero := a.Val.(zeroMarker); isZero {
+						st = MaybeNil
+					}
+					if st == NonNil {
+						continue
+					}
+					n++
+					cu := newCut().Edges(eq...)
+					if len(a.Edges) == 0 && a.Store == nil {
+						if !vw.MustPass(ret, cu) {
+							ok = false
+						}
+					} else if !AtomMustPass(a, cu) && !vw.MustPass(ret, cu) {
+						ok = false
+					}
 				}
 			}
 			c.Check(R, fn+"|token-only-after-scheme-match", f.Pos(), ok && n > 0,
 				ifelse(ok && n > 0, "every successful return has passed entry.scheme == scheme", "GetToken can return a token without the entry's scheme matching the requested scheme: a Basic credential string is sent as a Bearer token (or the reverse)"))
 		case "Set":
-			// scheme change replaces the entry before the token is stored
-			var neq []Edge
-			for _, i := range Ifs(f) {
-				cond, t, fe := ifEdges(i)
-				bo, ok := cond.(*ssa.BinOp)
-				if !ok || (bo.Op != token.EQL && bo.Op != token.NEQ) {
-					continue
-				}
-				x, y := bo.X, bo.Y
-				if y != ssa.Value(scheme) {
-					x, y = y, x
-				}
-				if y != ssa.Value(scheme) || !c14IsLoadOfField(x, tCE, "scheme") {
-					continue
-				}
-				if bo.Op == token.NEQ {
-					neq = append(neq, t)
-				} else {
-					neq = append(neq, fe)
-				}
-			}
+			_, neq := schemeTests()
 			fresh := func(v ssa.Value) bool {
-				a, ok := v.(*ssa.Alloc)
+				ls := vw.Leaves(v)
+				if len(ls) != 1 {
+					return false
+				}
+				a, ok := ls[0].(*ssa.Alloc)
 				if !ok || c14NamedOf(a.Type()) != tCE {
 					return false
 				}
@@ -975,7 +1133,7 @@ func c16R3(e *c16Env) {
 					if fa, isFA := r.(*ssa.FieldAddr); isFA && fieldName(fa.X.Type(), fa.Field) == tCE+".scheme" {
 						for _, r2 := range *fa.Referrers() {
 							if st, isSt := r2.(*ssa.Store); isSt {
-								okS = st.Val == ssa.Value(scheme)
+								okS = allIs(vw, st.Val, scheme)
 							}
 						}
 					}
@@ -983,43 +1141,60 @@ func c16R3(e *c16Env) {
 				return okS
 			}
 			var replaces []ssa.CallInstruction
-			for _, call := range Calls(f, isMapOp) {
-				if mapField(call) == tCC+".cache" && strings.HasSuffix(CalleeName(call), ".Store") && keyIs(call, reg) {
-					vr := Roots(call.Common().Args[2])
-					if len(vr) == 1 && fresh(vr[0]) {
-						replaces = append(replaces, call)
-					}
+			for _, call := range vw.Calls(isMapOp) {
+				args := call.Common().Args
+				if mapField(call) == tCC+".cache" && strings.HasSuffix(CalleeName(call), ".Store") && len(args) == 3 && allIs(vw, args[1], reg) && fresh(args[2]) {
+					replaces = append(replaces, call)
 				}
 			}
 			ok := len(neq) > 0
 			nStores := 0
-			for _, call := range Calls(f, isMapOp) {
+			for _, call := range vw.Calls(isMapOp) {
 				if mapField(call) != tCE+".tokens" || !strings.HasSuffix(CalleeName(call), ".Store") {
 					continue
 				}
 				nStores++
 				fa := call.Common().Args[0].(*ssa.FieldAddr)
 				for _, ed := range neq {
-					if reach(ed.To, 0, call.(ssa.Instruction), newCut().Calls(replaces)) {
+					if vw.EdgeReach(ed, call.(ssa.Instruction), newCut().Calls(replaces)) {
 						ok = false
 					}
 					// the entry written on a path coming from the scheme-differs edge is the fresh one
-					if phi, isPhi := fa.X.(*ssa.Phi); isPhi {
+					if phi, isPhi := fa.X.(*ssa.Phi); isPhi && phi.Parent() == ed.To.Parent() {
 						for i, p := range phi.Block().Preds {
 							from := p == ed.To || reach(ed.To, 0, p.Instrs[len(p.Instrs)-1], nil)
 							if from && !fresh(phi.Edges[i]) {
 								ok = false
 							}
 						}
-					} else if reach(ed.To, 0, call.(ssa.Instruction), nil) && !fresh(fa.X) {
-						ok = false
+					} else if vw.EdgeReach(ed, call.(ssa.Instruction), nil) {
+						// not a local merge: every entry it may denote that was loaded from the map must have been re-checked — require a fresh one
+						all := true
+						for _, l := range vw.Leaves(fa.X) {
+							if !fresh(l) {
+								all = false
+							}
+						}
+						if !all && !isPhi {
+							ok = false
+						}
 					}
 				}
-				// stored value is the fetched token
-				// (result of the coalesced fetch)
 			}
 			c.Check(R, fn+"|scheme-change-replaces-entry", f.Pos(), ok && nStores > 0,
 				ifelse(ok && nStores > 0, "when the cached entry has another scheme a fresh entry (scheme = requested scheme) replaces it before the token is stored", "after a scheme change the new token is stored into the old scheme's entry (or the entry is not replaced): GetToken then serves a token of one scheme under the other scheme's key"))
+		}
+	}
+	if nMethods == 0 {
+		return
+	}
+	// map operations outside the three Cache methods of concurrentCache
+	for _, f := range e.fns {
+		for _, call := range Calls(f, isMapOp) {
+			mf := mapField(call)
+			if (mf == tCC+".cache" || mf == tCC+".status" || mf == tCE+".tokens") && !covered[call.(ssa.Instruction)] {
+				c.Violation(R, FnName(f)+"|"+CalleeName(call)+"|outside-cache-methods", call.Pos(), "the token cache's maps are accessed by a function that GetScheme/GetToken/Set do not run: its key is not tied to their registry/key parameters")
+			}
 		}
 	}
 	// wrapper caches forward registry and scheme unchanged
@@ -1054,20 +1229,19 @@ func c16R3(e *c16Env) {
 	if nFwd == 0 {
 		c.LostAnchor(R, "wrapper caches (hostCache/fallbackCache) forwarding to a Cache")
 	}
-	// bearer keys in Do
 	c16BearerKeys(e)
 }
 
 func c16BearerKeys(e *c16Env) {
 	const R = "C16.R3.bearer-key-is-scope-set"
 	c := e.c
-	c.Expect(R, 4)
+	c.Expect(R, 3)
 	_, bearer, ok := c16SchemeConsts(c)
 	if !ok {
 		c.LostAnchor(R, "SchemeBearer")
 		return
 	}
-	scopeSrc := func(v ssa.Value) (bool, string) {
+	producer := func(v ssa.Value) (bool, string) {
 		call, ok := v.(*ssa.Call)
 		if !ok {
 			return false, describe(v)
@@ -1078,70 +1252,114 @@ func c16BearerKeys(e *c16Env) {
 		}
 		return false, CalleeName(call)
 	}
-	idx := 0
-	var calls []ssa.CallInstruction
-	for _, f := range e.clientFns() {
-		calls = append(calls, c16CacheCalls(f)...)
-	}
-	for _, call := range calls {
-		D := call.Parent()
-		dn := FnName(D)
-		name := CalleeName(call)
-		if name != c16Cache+"GetToken" && name != c16Cache+"Set" {
-			continue
-		}
-		args := call.Common().Args
-		if k, isK := constInt(args[2]); !isK || k != bearer {
-			continue
-		}
-		idx++
-		key := fmt.Sprintf("%s|%s#%d", dn, strings.TrimPrefix(name, c16Cache), idx)
-		okKey, why := true, ""
-		var joined []ssa.Value
-		for _, r := range Roots(args[3]) {
-			j, isCall := r.(*ssa.Call)
-			if !isCall || CalleeName(j) != "strings.Join" {
-				okKey, why = false, "the key is "+describe(r)+", not strings.Join(scopes, \" \")"
+	idx := map[string]int{}
+	n := 0
+	for _, f := range e.SV.Funcs() {
+		for _, call := range c16CacheCalls(f) {
+			name := CalleeName(call)
+			if name != c16Cache+"GetToken" && name != c16Cache+"Set" {
 				continue
 			}
-			if sep, isS := constString(j.Call.Args[1]); !isS || sep != " " {
-				okKey, why = false, "separator"
+			args := call.Common().Args
+			if k, isK := c16ConstOf(e.SV, args[2]); !isK || k != bearer {
+				continue
 			}
-			joined = append(joined, j.Call.Args[0])
-			for _, s := range Roots(j.Call.Args[0]) {
-				if ok, w := scopeSrc(s); !ok {
-					okKey, why = false, "the joined list comes from "+w+", not from GetAllScopesForHost / CleanScopes"
+			n++
+			short := strings.TrimPrefix(name, c16Cache)
+			idx[FnName(f)+short]++
+			key := fmt.Sprintf("%s|%s#%d", FnName(f), short, idx[FnName(f)+short])
+			okKey, why := true, ""
+			lists := map[ssa.Value]bool{}
+			ks := e.SV.Leaves(args[3])
+			if len(ks) == 0 {
+				okKey, why = false, "no key"
+			}
+			for _, r := range ks {
+				j, isCall := r.(*ssa.Call)
+				if !isCall || CalleeName(j) != "strings.Join" {
+					okKey, why = false, "the key is "+describe(r)+", not strings.Join(scopes, \" \")"
+					continue
 				}
-			}
-		}
-		c.Check(R, key+"|key-is-clean-scope-list", call.Pos(), okKey,
-			ifelse(okKey, "the bearer cache key is strings.Join of the scope list produced by GetAllScopesForHost / CleanScopes", "the bearer cache key is not the canonical scope list: "+why))
-		if name != c16Cache+"Set" {
-			continue
-		}
-		// the token is fetched for the very scope list that forms the key
-		okSame, why2 := false, "the fetch closure does not capture the scope variable whose value forms the key"
-		if mc, isMC := args[4].(*ssa.MakeClosure); isMC && len(joined) == 1 {
-			if cell := cellOf(joined[0]); cell != nil {
-				for _, b := range mc.Bindings {
-					if b == ssa.Value(cell) {
-						okSame = true
+				if sep, isS := constString(j.Call.Args[1]); !isS || sep != " " {
+					okKey, why = false, "the separator is not a single space"
+				}
+				for _, s := range e.SV.Leaves(j.Call.Args[0]) {
+					lists[s] = true
+					if ok, w := producer(s); !ok {
+						okKey, why = false, "the joined list comes from "+w+", not from GetAllScopesForHost / CleanScopes"
 					}
 				}
-				ld := joined[0].(*ssa.UnOp)
-				for _, st := range c14CellStores(cell) {
-					if st.Parent() != D || Reachable(ld, st) {
-						okSame, why2 = false, "the scope variable is reassigned after the key was computed"
+			}
+			c.Check(R, key+"|key-is-clean-scope-list", call.Pos(), okKey,
+				ifelse(okKey, "the bearer cache key is strings.Join of the scope list produced by GetAllScopesForHost / CleanScopes", "the bearer cache key is not the canonical scope list: "+why))
+			if short != "Set" {
+				continue
+			}
+			// the token is fetched for the very scope list that forms the key
+			cc, _ := call.(*ssa.Call)
+			var fetch *ssa.Function
+			if cc != nil {
+				fetch, _ = e.fetchTarget(cc)
+			}
+			if fetch == nil {
+				c.Undecided(R, key+"|fetch-uses-keyed-scopes", call.Pos(), "cannot resolve the fetch argument of Cache.Set to a function")
+				continue
+			}
+			used := map[ssa.Value]bool{}
+			for _, fc := range Calls(fetch, func(string) bool { return true }) {
+				for _, a := range fc.Common().Args {
+					if sl, isSl := a.Type().Underlying().(*types.Slice); isSl {
+						if b, isB := sl.Elem().Underlying().(*types.Basic); isB && b.Kind() == types.String {
+							for _, l := range e.fetchScopeLeaves(a, call.(ssa.Instruction)) {
+								used[l] = true
+							}
+						}
 					}
 				}
 			}
+			same := len(used) > 0 && len(used) == len(lists)
+			for l := range used {
+				if !lists[l] {
+					same = false
+				}
+			}
+			c.Check(R, key+"|fetch-uses-keyed-scopes", call.Pos(), same,
+				ifelse(same, "the fetch callback is given the same scope list the key was computed from", "the token is fetched for a scope list other than the one it is cached under"))
 		}
-		c.Check(R, key+"|fetch-uses-keyed-scopes", call.Pos(), okSame,
-			ifelse(okSame, "the fetch closure reads the same scope variable, unchanged since the key was computed", "the token is fetched for a scope list other than the one it is cached under: "+why2))
 	}
-	if idx == 0 {
-		c.LostAnchor(R, "bearer cache calls in package auth")
+	if n == 0 {
+		c.LostAnchor(R, "bearer cache calls run by Client.Do")
 	}
+}
+
+// fetchScopeLeaves resolves a value used inside a fetch callback to what it
+// denotes when Cache.Set runs the callback at `at`: a captured variable denotes
+// the stores that reach `at` (plus any later or foreign store, conservatively).
+func (e *c16Env) fetchScopeLeaves(v ssa.Value, at ssa.Instruction) []ssa.Value {
+	var out []ssa.Value
+	for _, r := range Roots(v) {
+		if u, ok := r.(*ssa.UnOp); ok && u.Op == token.MUL {
+			if fv, ok := u.X.(*ssa.FreeVar); ok {
+				if cell := c14FreeVarAlloc(fv); cell != nil && cell.Parent() == at.Parent() {
+					seen := map[*ssa.Store]bool{}
+					for _, s := range ReachingStores(cell, at) {
+						if s != nil {
+							seen[s] = true
+							out = append(out, e.SV.Leaves(s.Val)...)
+						}
+					}
+					for _, s := range c14CellStores(cell) {
+						if !seen[s] && (s.Parent() != at.Parent() || Reachable(at, s)) {
+							out = append(out, e.SV.Leaves(s.Val)...)
+						}
+					}
+					continue
+				}
+			}
+		}
+		out = append(out, e.BV.Leaves(r)...)
+	}
+	return out
 }
 
 // ---------- R4 ----------
@@ -1245,27 +1463,6 @@ func (w *c16Weigher) fn(f *ssa.Function, depth int) int {
 	return mx
 }
 
-// clientFns: the functions of package auth that use a Cache (everything but
-// the methods of types implementing the Cache interface, whose forwarding is
-// checked by R3).
-func (e *c16Env) clientFns() []*ssa.Function {
-	iface := e.c.P.Named(c16Pkg, "Cache")
-	var out []*ssa.Function
-	for _, f := range e.fns {
-		root := f
-		for root.Parent() != nil {
-			root = root.Parent()
-		}
-		if iface != nil && root.Signature.Recv() != nil {
-			if it, ok := iface.Underlying().(*types.Interface); ok && (types.Implements(root.Signature.Recv().Type(), it) || types.Implements(types.NewPointer(root.Signature.Recv().Type()), it)) {
-				continue
-			}
-		}
-		out = append(out, f)
-	}
-	return out
-}
-
 func c16R4(e *c16Env) {
 	const R = "C16.R4.send-budget"
 	c := e.c
@@ -1310,30 +1507,24 @@ func c16R4(e *c16Env) {
 	}
 	// each token fetch is at most one request
 	nf := 0
-	var setCalls []ssa.CallInstruction
-	for _, f := range e.clientFns() {
-		setCalls = append(setCalls, CallsTo(f, c16Cache+"Set")...)
-	}
-	for _, call := range setCalls {
-		args := call.Common().Args
-		var mc *ssa.MakeClosure
-		for _, r := range Roots(args[len(args)-1]) {
-			if m, ok := r.(*ssa.MakeClosure); ok && len(Roots(args[len(args)-1])) == 1 {
-				mc = m
-			}
+	for _, call := range e.SV.CallsTo(c16Cache + "Set") {
+		cc, _ := call.(*ssa.Call)
+		var fetch *ssa.Function
+		if cc != nil {
+			fetch, _ = e.fetchTarget(cc)
 		}
-		if mc == nil {
-			c.Undecided(R, FnName(call.Parent())+"|fetch-is-one-request", call.Pos(), "the fetch argument of Cache.Set is not a function literal")
+		if fetch == nil {
+			c.Undecided(R, FnName(call.Parent())+"|fetch-is-one-request", call.Pos(), "cannot resolve the fetch argument of Cache.Set to a function")
 			continue
 		}
 		nf++
 		sendsW.undecided = ""
-		m := maxSends(mc.Fn.(*ssa.Function), 1)
+		m := maxSends(fetch, 1)
 		if sendsW.undecided != "" {
-			c.Undecided(R, fmt.Sprintf("%s|fetch-is-one-request", FnName(mc.Fn.(*ssa.Function))), call.Pos(), sendsW.undecided)
+			c.Undecided(R, fmt.Sprintf("%s|fetch-is-one-request#%d", FnName(call.Parent()), nf), call.Pos(), sendsW.undecided)
 			continue
 		}
-		c.Check(R, fmt.Sprintf("%s|fetch-is-one-request", FnName(mc.Fn.(*ssa.Function))), call.Pos(), m <= 1,
+		c.Check(R, fmt.Sprintf("%s|fetch-is-one-request#%d", FnName(call.Parent()), nf), call.Pos(), m <= 1,
 			ifelse(m <= 1, fmt.Sprintf("the token fetch sends at most %d request", m), fmt.Sprintf("a token fetch can send %d requests carrying the credential", m)))
 	}
 	if nf == 0 {
@@ -1341,37 +1532,64 @@ func c16R4(e *c16Env) {
 	}
 	// preset Authorization: exactly one send, no cache access
 	var pre []Edge
-	for _, i := range Ifs(D) {
-		cond, t, f := ifEdges(i)
-		bo, ok := cond.(*ssa.BinOp)
+	// presetTest: bo is `<originalReq>.Header.Get("Authorization") ==/!= ""`; returns +1 if it is true when preset, -1 if false when preset
+	presetTest := func(l ssa.Value) int {
+		bo, ok := l.(*ssa.BinOp)
 		if !ok || (bo.Op != token.NEQ && bo.Op != token.EQL) {
-			continue
+			return 0
 		}
 		x, y := bo.X, bo.Y
 		if s, isS := constString(y); !isS || s != "" {
 			x, y = y, x
 		}
 		if s, isS := constString(y); !isS || s != "" {
-			continue
+			return 0
 		}
-		get, isGet := x.(*ssa.Call)
-		if !isGet || CalleeName(get) != c16HdrGet {
-			continue
+		gs := e.SV.Leaves(x)
+		if len(gs) == 0 {
+			return 0
 		}
-		if k, isK := constString(get.Call.Args[1]); !isK || !strings.EqualFold(k, "Authorization") {
-			continue
-		}
-		ld, isLd := get.Call.Args[0].(*ssa.UnOp)
-		if !isLd {
-			continue
-		}
-		if fa, isFA := ld.X.(*ssa.FieldAddr); !isFA || fa.X != ssa.Value(e.orig) {
-			continue
+		for _, gl := range gs {
+			get, isGet := gl.(*ssa.Call)
+			if !isGet || CalleeName(get) != c16HdrGet {
+				return 0
+			}
+			if k, isK := constString(get.Call.Args[1]); !isK || !strings.EqualFold(k, "Authorization") {
+				return 0
+			}
+			ld, isLd := get.Call.Args[0].(*ssa.UnOp)
+			if !isLd {
+				return 0
+			}
+			fa, isFA := ld.X.(*ssa.FieldAddr)
+			if !isFA || fieldName(fa.X.Type(), fa.Field) != "net/http.Request.Header" || !e.isOrig(fa.X, e.SV) {
+				return 0
+			}
 		}
 		if bo.Op == token.NEQ {
-			pre = append(pre, t)
-		} else {
-			pre = append(pre, f)
+			return 1
+		}
+		return -1
+	}
+	for _, g := range e.SV.Funcs() {
+		for _, i := range Ifs(g) {
+			cond, t, f := ifEdges(i)
+			pol := 0
+			ls := e.SV.Leaves(cond)
+			for j, l := range ls {
+				p := presetTest(l)
+				if p == 0 || (j > 0 && p != pol) {
+					pol = 0
+					break
+				}
+				pol = p
+			}
+			switch pol {
+			case 1:
+				pre = append(pre, t)
+			case -1:
+				pre = append(pre, f)
+			}
 		}
 	}
 	if len(pre) == 0 {
@@ -1379,10 +1597,15 @@ func c16R4(e *c16Env) {
 		return
 	}
 	for _, ed := range pre {
-		mxp, mnp, _ := c16Budget(D, ed.To, w)
+		mxp, mnp := e.SV.Weights(e.SV.atBlock(ed.To), func(in ssa.Instruction) int {
+			if call, ok := in.(ssa.CallInstruction); ok && CalleeName(call) == c16HTTPDo {
+				return 1
+			}
+			return 0
+		})
 		cacheTouched := false
-		for _, call := range append(c16CacheCalls(D), CallsTo(D, "(*~/registry/remote/auth.Client).cache")...) {
-			if reach(ed.To, 0, call.(ssa.Instruction), nil) {
+		for _, call := range e.SV.Calls(func(n string) bool { return strings.HasPrefix(n, c16Cache) }) {
+			if e.SV.EdgeReach(ed, call.(ssa.Instruction), nil) {
 				cacheTouched = true
 			}
 		}
@@ -1411,10 +1634,24 @@ func c16R5(e *c16Env) {
 		}
 	}
 	fn := FnName(F)
+	vw := c14NewView(F, 4, func(g *ssa.Function) bool {
+		return fnPkgPath(g) == pkgPath("internal/syncutil") && (g.Parent() != nil || g.Object() == nil || !g.Object().Exported())
+	})
 	fparam := F.Params[2]
 	var fcalls []ssa.CallInstruction
-	for _, call := range Calls(F, func(string) bool { return true }) {
-		if call.Common().Value == ssa.Value(fparam) {
+	for _, call := range vw.Calls(func(string) bool { return true }) {
+		cv := call.Common().Value
+		if call.Common().IsInvoke() || cv == nil {
+			continue
+		}
+		if _, isFn := cv.(*ssa.Function); isFn {
+			continue
+		}
+		if _, isB := cv.(*ssa.Builtin); isB {
+			continue
+		}
+		ls := vw.Leaves(cv)
+		if len(ls) == 1 && ls[0] == ssa.Value(fparam) {
 			fcalls = append(fcalls, call)
 		}
 	}
@@ -1423,54 +1660,69 @@ func c16R5(e *c16Env) {
 		return
 	}
 	fc := fcalls[0]
+	fci := fc.(ssa.Instruction)
 	fres, ferr := ResultOf(fc, 0), ResultOf(fc, 1)
+	isStatus := func(ch ssa.Value) bool { return vw.IsLoadOfField(ch, tOnce, "status") }
 	// f runs only with the token (received true from status)
 	var sel *ssa.Select
-	AllInstrs(F, func(in ssa.Instruction) {
+	vw.Instrs(func(in ssa.Instruction) {
 		if s, ok := in.(*ssa.Select); ok {
-			sel = s
+			for _, st := range s.States {
+				if st.Dir == types.RecvOnly && isStatus(st.Chan) {
+					sel = s
+				}
+			}
 		}
 	})
 	okTok := false
 	if sel != nil {
 		k := -1
 		for i, st := range sel.States {
-			if st.Dir == types.RecvOnly && c14IsLoadOfField(st.Chan, tOnce, "status") {
+			if st.Dir == types.RecvOnly && isStatus(st.Chan) {
 				k = i
 			}
 		}
-		if k >= 0 {
-			// the received value: extract #(2+index among recv states)
-			ri := 2
-			for i := 0; i < k; i++ {
-				if sel.States[i].Dir == types.RecvOnly {
-					ri++
-				}
-			}
-			recvd := map[ssa.Value]bool{}
-			for _, r := range *sel.Referrers() {
-				if ex, ok := r.(*ssa.Extract); ok && ex.Index == ri {
-					for a := range Aliases(ex) {
-						recvd[a] = true
-					}
-				}
-			}
-			te, _ := BoolTests(F, recvd)
-			if ce, found := selectCaseEdge(sel, k); found && len(te) > 0 {
-				okTok = MustPass(fc.(ssa.Instruction), newCut().Edges(ce)) && MustPass(fc.(ssa.Instruction), newCut().Edges(te...))
+		ri := 2
+		for i := 0; i < k; i++ {
+			if sel.States[i].Dir == types.RecvOnly {
+				ri++
 			}
 		}
+		recvd := map[ssa.Value]bool{}
+		for _, r := range *sel.Referrers() {
+			if ex, ok := r.(*ssa.Extract); ok && ex.Index == ri {
+				for a := range vw.Aliases(ex) {
+					recvd[a] = true
+				}
+			}
+		}
+		te, _ := vw.BoolTests(recvd)
+		if ce, found := selectCaseEdge(sel, k); found && len(te) > 0 {
+			okTok = vw.MustPass(fci, newCut().Edges(ce)) && vw.MustPass(fci, newCut().Edges(te...))
+		}
+	} else {
+		// a plain receive `v := <-o.status` (no cancellation alternative) still gates f
+		recvd := map[ssa.Value]bool{}
+		vw.Instrs(func(in ssa.Instruction) {
+			if u, ok := in.(*ssa.UnOp); ok && u.Op == token.ARROW && isStatus(u.X) {
+				for a := range vw.Aliases(u) {
+					recvd[a] = true
+				}
+			}
+		})
+		te, _ := vw.BoolTests(recvd)
+		okTok = len(te) > 0 && vw.MustPass(fci, newCut().Edges(te...))
 	}
 	c.Check(R, fn+"|f-runs-only-with-token", fc.Pos(), okTok,
 		ifelse(okTok, "f is called only after receiving `true` from o.status", "f can run without holding the in-progress token: two fetches with the credential run at once, or f runs after a result was stored"))
 	// stores precede close
 	var closes []ssa.CallInstruction
-	for _, cl := range CallsTo(F, "builtin:close") {
-		if c14IsLoadOfField(cl.Common().Args[0], tOnce, "status") {
+	for _, cl := range vw.CallsTo("builtin:close") {
+		if isStatus(cl.Common().Args[0]) {
 			closes = append(closes, cl)
 		}
 	}
-	resStores, errStores := c14FieldStores(F, tOnce, "result"), c14FieldStores(F, tOnce, "err")
+	resStores, errStores := vw.FieldStores(tOnce, "result"), vw.FieldStores(tOnce, "err")
 	toI := func(ss []*ssa.Store) []ssa.Instruction {
 		var o []ssa.Instruction
 		for _, s := range ss {
@@ -1478,25 +1730,32 @@ func c16R5(e *c16Env) {
 		}
 		return o
 	}
+	callsI := func(cs []ssa.CallInstruction) []ssa.Instruction {
+		var o []ssa.Instruction
+		for _, x := range cs {
+			o = append(o, x.(ssa.Instruction))
+		}
+		return o
+	}
+	only := func(v ssa.Value, want ssa.Value) bool {
+		ls := vw.Leaves(v)
+		return want != nil && len(ls) == 1 && ls[0] == want
+	}
 	ok := len(closes) > 0 && len(resStores) > 0 && len(errStores) > 0
 	for _, cl := range closes {
-		if !MustPass(cl.(ssa.Instruction), newCut().Instr(toI(resStores)...)) || !MustPass(cl.(ssa.Instruction), newCut().Instr(toI(errStores)...)) {
+		if !vw.MustPass(cl.(ssa.Instruction), newCut().Instr(toI(resStores)...)) || !vw.MustPass(cl.(ssa.Instruction), newCut().Instr(toI(errStores)...)) {
 			ok = false
 		}
 	}
 	for _, s := range resStores {
-		if fres == nil || !SameValue(s.Val, fres) {
-			ok = false
-		}
+		ok = ok && only(s.Val, fres)
 	}
 	for _, s := range errStores {
-		if ferr == nil || !SameValue(s.Val, ferr) {
-			ok = false
-		}
+		ok = ok && only(s.Val, ferr)
 	}
 	for _, s := range append(toI(resStores), toI(errStores)...) {
 		for _, cl := range closes {
-			if Reachable(cl.(ssa.Instruction), s) {
+			if vw.Reachable(cl.(ssa.Instruction), s) {
 				ok = false
 			}
 		}
@@ -1508,155 +1767,129 @@ func c16R5(e *c16Env) {
 		c.Violation(R, fn+"|cancellation-hands-token-back", fc.Pos(), "f's error is discarded")
 		return
 	}
-	canc := toleratedEdges(F, Aliases(ferr), []string{"context.Canceled", "context.DeadlineExceeded"})
+	var canc []Edge
+	errAl := vw.Aliases(ferr)
+	for _, g := range vw.Funcs() {
+		canc = append(canc, toleratedEdges(g, errAl, []string{"context.Canceled", "context.DeadlineExceeded"})...)
+	}
 	var backs []ssa.Instruction
-	for _, s := range c14Sends(F) {
-		if b, isB := c14ConstBool(s.X); isB && b && c14IsLoadOfField(s.Chan, tOnce, "status") {
+	for _, s := range vw.Sends() {
+		if len(CallsTo(s.Parent(), "builtin:recover")) > 0 {
+			continue // the panic handler's hand-back is checked separately below
+		}
+		if b, isB := c14ConstBool(s.X); isB && b && isStatus(s.Chan) {
 			backs = append(backs, s)
 		}
 	}
 	okC := len(canc) >= 1 && len(backs) > 0
 	for _, ed := range canc {
-		if c14AnyReturnReachable(ed.To, newCut().Instr(backs...)) != nil {
+		if vw.ExitFromEdge(ed, newCut().Instr(backs...)) {
 			okC = false
 		}
-		for _, x := range append(append(toI(resStores), toI(errStores)...), func() []ssa.Instruction {
-			var o []ssa.Instruction
-			for _, cl := range closes {
-				o = append(o, cl.(ssa.Instruction))
-			}
-			return o
-		}()...) {
-			if reach(ed.To, 0, x, nil) {
+		for _, x := range append(append(toI(resStores), toI(errStores)...), callsI(closes)...) {
+			if vw.EdgeReach(ed, x, nil) {
 				okC = false
 			}
 		}
 	}
 	for _, b := range backs {
-		if !MustPass(b, newCut().Edges(canc...)) {
+		if !vw.MustPass(b, newCut().Edges(canc...)) {
 			okC = false
 		}
 	}
 	c.Check(R, fn+"|cancellation-hands-token-back", fc.Pos(), okC,
 		ifelse(okC, "on context.Canceled / DeadlineExceeded the token `true` is put back, nothing is stored and the channel stays open", "a cancelled fetch does not hand the in-progress token back exactly once without storing: the next caller parks forever, or every later caller is served the cancellation error as the token result"))
-	// the success path closes (so waiters wake up)
-	okS := true
-	for _, ret := range Returns(F) {
-		if !ReachableFromEntry(ret) || !Reachable(fc.(ssa.Instruction), ret) {
-			continue
-		}
-		cu := newCut().Calls(closes).Instr(backs...)
-		if !MustPassBetween(fc.(ssa.Instruction), ret, cu) {
-			okS = false
-		}
-	}
+	// after f ran every exit has released the waiters
+	okS := !vw.ExitAfter(fci, newCut().Calls(closes).Instr(backs...))
 	c.Check(R, fn+"|every-exit-after-f-releases-waiters", fc.Pos(), okS,
 		ifelse(okS, "after f ran every return has either closed the status channel or put the token back", "a path returns after running f without closing o.status or handing the token back: requests waiting on the same token fetch park forever"))
 	// waiters read the stored result only on a closed channel (received false)
 	okW := true
 	nW := 0
-	for _, ret := range Returns(F) {
-		if !ReachableFromEntry(ret) || Reachable(fc.(ssa.Instruction), ret) {
-			continue
-		}
-		for _, v := range Roots(ret.Results[1]) {
-			if c14IsLoadOfField(v, tOnce, "result") {
-				nW++
-				first, isK := c14ConstBool(Roots(ret.Results[0])[0])
-				if !isK || first || !c14IsLoadOfField(ret.Results[2], tOnce, "err") {
-					okW = false
+	for _, g := range vw.Funcs() {
+		for _, ret := range Returns(g) {
+			if len(ret.Results) != 3 || !vw.ReachableFromEntry(ret) {
+				continue
+			}
+			isStored := false
+			for _, l := range Roots(ret.Results[1]) {
+				if c14IsLoadOfField(l, tOnce, "result") {
+					isStored = true
 				}
+			}
+			if !isStored {
+				continue
+			}
+			nW++
+			first, isK := c14ConstBool(Roots(ret.Results[0])[0])
+			if !isK || first || !c14IsLoadOfField(ret.Results[2], tOnce, "err") || !c14IsLoadOfField(ret.Results[1], tOnce, "result") {
+				okW = false
+			}
+			// not after f ran in this call
+			if vw.Reachable(fci, ret) {
+				okW = false
 			}
 		}
 	}
 	c.Check(R, fn+"|waiter-returns-stored-result", F.Pos(), okW && nW > 0,
 		ifelse(okW && nW > 0, "a caller that finds the channel closed returns (false, o.result, o.err)", "a waiting caller does not return the stored (result, err) with first=false"))
-	// panic path: the deferred closure hands the token back
+	// panic path: a deferred closure of a function on f's call stack hands the token back
 	okP := false
-	for _, a := range Anons(F) {
-		rec := CallsTo(a, "builtin:recover")
-		if len(rec) == 0 {
-			continue
-		}
-		deferred := false
-		AllInstrs(F, func(in ssa.Instruction) {
-			if d, isD := in.(*ssa.Defer); isD {
-				if mc, isMC := d.Call.Value.(*ssa.MakeClosure); isMC && mc.Fn == a {
-					deferred = true
-				}
+	for _, host := range vw.Funcs() {
+		for _, a := range host.AnonFuncs {
+			rec := CallsTo(a, "builtin:recover")
+			if len(rec) == 0 {
+				continue
 			}
-		})
-		_, nn, _ := NilTests(a, Aliases(rec[0].Value()))
-		var pb []ssa.Instruction
-		for _, s := range c14Sends(a) {
-			if b, isB := c14ConstBool(s.X); isB && b {
-				for _, r := range Roots(s.Chan) {
-					if ld, isLd := r.(*ssa.UnOp); isLd {
-						if fa, isFA := ld.X.(*ssa.FieldAddr); isFA && fieldName(fa.X.Type(), fa.Field) == tOnce+".status" {
-							pb = append(pb, s)
+			var deferIn ssa.Instruction
+			AllInstrs(host, func(in ssa.Instruction) {
+				if d, isD := in.(*ssa.Defer); isD {
+					if mc, isMC := d.Call.Value.(*ssa.MakeClosure); isMC && mc.Fn == a {
+						deferIn = d
+					}
+				}
+			})
+			if deferIn == nil || !vw.MustPass(fci, newCut().Instr(deferIn)) {
+				continue
+			}
+			_, nn, _ := NilTests(a, Aliases(rec[0].Value()))
+			var pb []ssa.Instruction
+			for _, s := range c14Sends(a) {
+				if b, isB := c14ConstBool(s.X); isB && b {
+					for _, r := range Roots(s.Chan) {
+						if ld, isLd := r.(*ssa.UnOp); isLd {
+							if fa, isFA := ld.X.(*ssa.FieldAddr); isFA && fieldName(fa.X.Type(), fa.Field) == tOnce+".status" {
+								pb = append(pb, s)
+							}
 						}
 					}
 				}
 			}
-		}
-		okP = deferred && len(nn) > 0 && len(pb) > 0
-		for _, ed := range nn {
-			// every way out of the recovered branch (panic or return) passes the send
-			for _, b := range a.Blocks {
-				if len(b.Instrs) == 0 {
-					continue
-				}
-				last := b.Instrs[len(b.Instrs)-1]
-				switch last.(type) {
-				case *ssa.Panic, *ssa.Return:
-					if reach(ed.To, 0, last, newCut().Instr(pb...)) {
-						okP = false
+			good := len(nn) > 0 && len(pb) > 0
+			for _, ed := range nn {
+				for _, b := range a.Blocks {
+					if len(b.Instrs) == 0 {
+						continue
+					}
+					last := b.Instrs[len(b.Instrs)-1]
+					switch last.(type) {
+					case *ssa.Panic, *ssa.Return:
+						if reach(ed.To, 0, last, newCut().Instr(pb...)) {
+							good = false
+						}
 					}
 				}
 			}
-		}
-		for _, s := range pb {
-			if !MustPass(s, newCut().Edges(nn...)) {
-				okP = false
+			for _, s := range pb {
+				if !MustPass(s, newCut().Edges(nn...)) {
+					good = false
+				}
+			}
+			if good {
+				okP = true
 			}
 		}
 	}
 	c.Check(R, fn+"|panic-hands-token-back", F.Pos(), okP,
 		ifelse(okP, "a deferred recover handler puts the token back (only) when f panicked", "a panic in f leaves the in-progress token taken (later callers park forever), or the handler puts a second token back on normal exits"))
-}
-
-var c16Mutants = []Mutant{
-	// R1
-	{Name: "scheme-looked-up-for-url-host", File: "registry/remote/auth/client.go", Old: "scheme, err := cache.GetScheme(ctx, host)", New: "scheme, err := cache.GetScheme(ctx, originalReq.URL.Host)", Expect: "C16.R1"},
-	{Name: "basic-credential-of-redirect-host", File: "registry/remote/auth/client.go", Old: "return c.fetchBasicAuth(ctx, host)", New: "return c.fetchBasicAuth(ctx, resp.Request.URL.Host)", Expect: "C16.R1"},
-	{Name: "credential-of-realm-host", File: "registry/remote/auth/client.go", Old: "func (c *Client) fetchBearerToken(ctx context.Context, registry, realm, service string, scopes []string) (string, error) {\n\tcred, err := c.credential(ctx, registry)", New: "func (c *Client) fetchBearerToken(ctx context.Context, registry, realm, service string, scopes []string) (string, error) {\n\tcred, err := c.credential(ctx, realm)", Expect: "C16.R1"},
-	{Name: "authorization-set-on-callers-request", File: "registry/remote/auth/client.go", Old: "\t\treq = originalReq.Clone(ctx)\n\t\treq.Header.Set(\"Authorization\", \"Basic \"+token)", New: "\t\treq = originalReq\n\t\treq.Header.Set(\"Authorization\", \"Basic \"+token)", Expect: "C16.R1"},
-	{Name: "basic-header-from-bearer-cache", File: "registry/remote/auth/client.go", Old: "token, err := cache.GetToken(ctx, host, SchemeBasic, \"\")", New: "token, err := cache.GetToken(ctx, host, SchemeBearer, \"\")", Expect: "C16.R1"},
-	{Name: "bearer-token-cached-under-service", File: "registry/remote/auth/client.go", Old: "token, err := cache.Set(ctx, host, SchemeBearer, key, func(ctx context.Context) (string, error) {", New: "token, err := cache.Set(ctx, params[\"service\"], SchemeBearer, key, func(ctx context.Context) (string, error) {", Expect: "C16.R1"},
-	// R2
-	{Name: "preemptive-basic-auth", File: "registry/remote/auth/client.go", Old: "\thost := originalReq.Host\n", New: "\thost := originalReq.Host\n\tif cred, err := c.credential(ctx, host); err == nil && cred.Password != \"\" {\n\t\treq.SetBasicAuth(cred.Username, cred.Password)\n\t}\n", Expect: "C16.R2"},
-	{Name: "password-in-error-text", File: "registry/remote/auth/client.go", Old: "\t\treturn \"\", errors.New(\"missing username or password for basic auth\")", New: "\t\treturn \"\", fmt.Errorf(\"missing username or password for basic auth: %q\", cred.Username+\":\"+cred.Password)", Expect: "C16.R2.secret-sinks"},
-	{Name: "distribution-token-request-to-service-host", File: "registry/remote/auth/client.go", Old: "req, err := http.NewRequestWithContext(ctx, http.MethodGet, realm, nil)", New: "req, err := http.NewRequestWithContext(ctx, http.MethodGet, \"https://\"+service+\"/token\", nil)", Expect: "C16.R2.secret-sinks"},
-	{Name: "oauth2-form-posted-to-service-host", File: "registry/remote/auth/client.go", Old: "req, err := http.NewRequestWithContext(ctx, http.MethodPost, realm, body)", New: "req, err := http.NewRequestWithContext(ctx, http.MethodPost, \"https://\"+service+\"/token\", body)", Expect: "C16.R2.secret-sinks"},
-	{Name: "refresh-token-as-header", File: "registry/remote/auth/client.go", Old: "\treq.Header.Set(\"Content-Type\", \"application/x-www-form-urlencoded\")\n", New: "\treq.Header.Set(\"Content-Type\", \"application/x-www-form-urlencoded\")\n\treq.Header.Set(\"X-Identity-Token\", cred.RefreshToken)\n", Expect: "C16.R2.secret-sinks"},
-	// R3
-	{Name: "token-served-across-schemes", File: "registry/remote/auth/cache.go", Old: "\tif entry.scheme != scheme {\n\t\treturn \"\", errdef.ErrNotFound\n\t}\n", New: "", Expect: "C16.R3"},
-	{Name: "inflight-key-without-scope-key", File: "registry/remote/auth/cache.go", Old: "\t\tscheme.String(),\n\t\tkey,\n\t}, \" \")", New: "\t\tscheme.String(),\n\t}, \" \")", Expect: "C16.R3"},
-	{Name: "scheme-change-keeps-old-tokens", File: "registry/remote/auth/cache.go", Old: "\t\tentry = newEntry\n\t\tcc.cache.Store(registry, entry)\n", New: "\t\tentry.scheme = scheme\n", Expect: "C16.R3"},
-	{Name: "host-cache-drops-registry", File: "registry/remote/auth/cache.go", Old: "\treturn c.Cache.GetToken(ctx, registry, scheme, \"\")", New: "\treturn c.Cache.GetToken(ctx, \"\", scheme, \"\")", Expect: "C16.R3"},
-	{Name: "token-stored-under-empty-key", File: "registry/remote/auth/cache.go", Old: "\tentry.tokens.Store(key, token)", New: "\tentry.tokens.Store(\"\", token)", Expect: "C16.R3"},
-	{Name: "entry-looked-up-by-key", File: "registry/remote/auth/cache.go", Old: "func (cc *concurrentCache) GetToken(ctx context.Context, registry string, scheme Scheme, key string) (string, error) {\n\tentryValue, ok := cc.cache.Load(registry)", New: "func (cc *concurrentCache) GetToken(ctx context.Context, registry string, scheme Scheme, key string) (string, error) {\n\tentryValue, ok := cc.cache.Load(key)", Expect: "C16.R3"},
-	{Name: "challenge-scopes-not-cleaned", File: "registry/remote/auth/client.go", Old: "\t\t\tscopes = append(scopes, strings.Split(paramScope, \" \")...)\n\t\t\tscopes = CleanScopes(scopes)\n", New: "\t\t\tscopes = append(scopes, strings.Split(paramScope, \" \")...)\n", Expect: "C16.R3.bearer-key"},
-	{Name: "bearer-key-joined-with-comma", File: "registry/remote/auth/client.go", Old: "\t\tkey := strings.Join(scopes, \" \")\n", New: "\t\tkey := strings.Join(scopes, \",\")\n", Expect: "C16.R3.bearer-key"},
-	{Name: "token-fetched-for-challenge-scopes-only", File: "registry/remote/auth/client.go", Old: "return c.fetchBearerToken(ctx, host, realm, service, scopes)", New: "return c.fetchBearerToken(ctx, host, realm, service, strings.Split(params[\"scope\"], \" \"))", Expect: "C16.R3.bearer-key"},
-	// R4
-	{Name: "fourth-send-on-401", File: "registry/remote/auth/client.go", Old: "\n\treturn c.send(req)\n}", New: "\n\tresp, err = c.send(req)\n\tif err == nil && resp.StatusCode == http.StatusUnauthorized {\n\t\tresp.Body.Close()\n\t\treturn c.send(req)\n\t}\n\treturn resp, err\n}", Expect: "C16.R4"},
-	{Name: "preset-authorization-ignored", File: "registry/remote/auth/client.go", Old: "\tif auth := originalReq.Header.Get(\"Authorization\"); auth != \"\" {\n\t\treturn c.send(originalReq)\n\t}\n", New: "", Expect: "C16.R4"},
-	{Name: "retry-loop-around-first-send", File: "registry/remote/auth/client.go", Old: "\tresp, err := c.send(req)\n\tif err != nil {\n\t\treturn nil, err\n\t}\n\tif resp.StatusCode != http.StatusUnauthorized {", New: "\tresp, err := c.send(req)\n\tfor i := 0; err != nil && i < 2; i++ {\n\t\tresp, err = c.send(req)\n\t}\n\tif err != nil {\n\t\treturn nil, err\n\t}\n\tif resp.StatusCode != http.StatusUnauthorized {", Expect: "C16.R4"},
-	{Name: "distribution-token-fetched-twice", File: "registry/remote/auth/client.go", Old: "\tresp, err := c.send(req)\n\tif err != nil {\n\t\treturn \"\", err\n\t}\n\tdefer resp.Body.Close()\n\tif resp.StatusCode != http.StatusOK {\n\t\treturn \"\", errutil.ParseErrorResponse(resp)\n\t}\n\n\t// As specified", New: "\tresp, err := c.send(req)\n\tif err != nil {\n\t\tresp, err = c.send(req)\n\t}\n\tif err != nil {\n\t\treturn \"\", err\n\t}\n\tdefer resp.Body.Close()\n\tif resp.StatusCode != http.StatusOK {\n\t\treturn \"\", errutil.ParseErrorResponse(resp)\n\t}\n\n\t// As specified", Expect: "C16.R4"},
-	// R5
-	{Name: "status-closed-before-result-stored", File: "internal/syncutil/once.go", Old: "\t\t\to.result, o.err = result, err\n\t\t\tclose(o.status)\n", New: "\t\t\tclose(o.status)\n\t\t\to.result, o.err = result, err\n", Expect: "C16.R5"},
-	{Name: "cancelled-fetch-keeps-token", File: "internal/syncutil/once.go", Old: "\t\t\t\to.status <- true\n\t\t\t\treturn false, nil, err\n", New: "\t\t\t\treturn false, nil, err\n", Expect: "C16.R5"},
-	{Name: "panic-keeps-token", File: "internal/syncutil/once.go", Old: "\t\t\to.status <- true\n\t\t\tpanic(r)\n", New: "\t\t\tpanic(r)\n", Expect: "C16.R5"},
-	{Name: "cancelled-result-stored", File: "internal/syncutil/once.go", Old: "\t\t\tif err == context.Canceled || err == context.DeadlineExceeded {\n\t\t\t\to.status <- true\n", New: "\t\t\tif err == context.Canceled || err == context.DeadlineExceeded {\n\t\t\t\to.err = err\n\t\t\t\to.status <- true\n", Expect: "C16.R5"},
 }
